@@ -157,12 +157,7 @@ def run(facts, tr, rep):
         name = b.def_.split("::")[-1]
         if name.startswith("evaluate"):
             name = "evaluate"
-        sw_bb, sw = cb.state_arms(b)
-        arm = "*"
-        if sw is not None:
-            for v in ("Closed", "Open", "HalfOpen"):
-                if cb.in_arm(b, sw_bb, sw, v, cs.bb):
-                    arm = v
+        arm, arm_edge = cb.arm_of(b, cs.bb)
         rows.add((name, arm, tgt))
         g = graph(b)
         k = skey(b, "transition->%s@%s" % (tgt, arm))
@@ -182,7 +177,7 @@ def run(facts, tr, rep):
             detail += "; guarded by successes >= permitted_calls_in_half_open" if gd else "; NOT guarded by successes >= permitted_calls_in_half_open"
         elif (name, arm, tgt) == ("record_failure", "HalfOpen", "Open"):
             # unguarded inside the arm: no bool edge between the arm entry and the call
-            inner = [e for e in edges if e["kind"] == "bool" and cb.in_arm(b, sw_bb, sw, "HalfOpen", e["bb"])]
+            inner = cb.inner_guards(b, cs.bb, arm_edge)
             ok = ok and not inner
             detail += "; unconditional inside the arm" if not inner else "; but it is guarded by an extra condition (a failure in half-open must always re-open)"
         elif (name, arm, tgt) == ("try_acquire", "Open", "HalfOpen"):
@@ -228,8 +223,7 @@ def run(facts, tr, rep):
                "window evaluation is invoked from %s" % names)
         for c in callers:
             b = c.g.b
-            sw_bb, sw = cb.state_arms(b)
-            in_ho = sw is not None and cb.in_arm(b, sw_bb, sw, "HalfOpen", c.bb)
+            in_ho = cb.arm_of(b, c.bb)[0] == "HalfOpen"
             rep.ob("C04.TABLE", skey(b, "evaluate-outside-halfopen"), not in_ho, c.where(),
                    "window evaluation happens outside the HalfOpen arm" if not in_ho else "window evaluation inside the HalfOpen arm")
     # ------------------------------------------------------------ REC: both services record with the classifier's verdict on the result
